@@ -13,6 +13,7 @@ The property's own oracle (written from the property text, in Python, not from t
 evaluated on every observation."""
 import json
 import os
+from fractions import Fraction
 import hv
 
 SEC = 10**9
@@ -166,6 +167,67 @@ def gen_rate_case(rng, cid, kind="rate"):
             "calls": calls, "interval": interval, "pow2": pow2}
 
 
+# rates that do not divide 1e9, over the whole range: the interval 1e9/pps is not a whole number
+NONDIV = [3, 7, 333, 2999, 48000, 123457, 700001, 1000001, 30000001, 300000000, 600000000, 750000001, 999000000]
+
+
+def ival(case):
+    """The interval of the case as an exact rational number of nanoseconds per permit."""
+    return Fraction(SEC, case["pps"])
+
+
+def model_head(case):
+    if "interval" in case and SEC % case["pps"] == 0:
+        return ["rate", str(case["interval"])]
+    return ["rateq", str(case["pps"])]
+
+
+def gen_rate_any_case(rng, cid, sustained=False):
+    """Any rate; multi-token calls.  sustained: real waits of several ms per call at a high rate, so that
+    the admitted amount per measured time is close to the configured rate."""
+    if sustained:
+        pps = rng.choice([600000000, 600000000, 550000000, 700000000, 350000000, 999000000 // 2 + 1, 1000001])
+        per_call_ns = rng.choice([8, 10]) * 10**6
+        t = per_call_ns * pps // SEC
+        calls = [{"tokens": t, "gap_us": 0} for _ in range(rng.randint(6, 8))]
+        return {"id": cid, "kind": "rate", "pps": pps, "burst": rng.choice([0, 0, 1]), "timeout_ns": 0, "cancelled": False,
+                "calls": calls, "pow2": False, "nondiv": True, "sustained": True}
+    pps = rng.choice(NONDIV)
+    unit_ns = rng.choice([20000, 100000, 400000])
+    scale = max(1, unit_ns * pps // SEC)
+    cancelled = rng.random() < 0.5 or pps < 2000      # one permit lasts longer than 0.5 ms: never wait for real
+    burst = rng.choice([-1, -1, 0, 1, 2, scale, 5 * scale])
+    unit = int(scale * SEC // pps)
+    tmo = rng.choice([0, 0, unit // 2, 2 * unit, 5 * unit])
+    calls = []
+    budget = 25 * 10**6
+    for _ in range(rng.randint(6, 24)):
+        if scale > 1:
+            t = rng.choice([0, 1, 1, 1, 2, 3]) * rng.randint(max(1, scale // 2), scale)
+        else:
+            t = rng.choice([0, 1, 1, 2, 3, 8, 100, 12345])
+        cost = t * SEC // pps
+        if not cancelled:
+            if budget - cost < 0:
+                t = 0
+                cost = 0
+            budget -= cost
+        calls.append({"tokens": t, "gap_us": rng.choice([0, 0, 0, 0, 50, 300, 1500, 4000])})
+    return {"id": cid, "kind": "rate", "pps": pps, "burst": burst, "timeout_ns": tmo, "cancelled": cancelled,
+            "calls": calls, "pow2": False, "nondiv": True}
+
+
+def gen_plug_any_case(rng, cid):
+    """Through Client.Use: the IOHandler charges len(request) tokens (byte-rate limiting)."""
+    pps = rng.choice([333, 123457, 1000001, 30000001, 300000000, 600000000, 999000000])
+    arg = rng.choice([0, 100, 5000, 40000])
+    cancelled = rng.random() < 0.7 or (arg + 30) * SEC // pps > 2 * 10**6
+    return {"id": cid, "kind": "plug", "pps": pps, "burst": rng.choice([-1, 0, 2, 10000]),
+            "timeout_ns": rng.choice([0, 0, 3 * SEC // pps + 1, (arg + 100) * SEC // pps]),
+            "cancelled": cancelled, "arg_len": arg, "pow2": False, "nondiv": True,
+            "calls": [{"tokens": 1, "gap_us": rng.choice([0, 0, 50, 1000])} for _ in range(rng.randint(4, 12))]}
+
+
 def gen_plug_case(rng, cid):
     interval = rng.choice([512, 1000, 10000, 100000])
     c = gen_rate_case(rng, cid, "plug")
@@ -202,6 +264,12 @@ def gen_cases(ctx, hook):
     for _ in range(30 if quick else 200):
         cid += 1
         cases.append(gen_plug_case(ctx.rng, cid))
+    for k in range(70 if quick else 600):
+        cid += 1
+        cases.append(gen_rate_any_case(ctx.rng, cid, sustained=(k % 10 == 0)))
+    for _ in range(25 if quick else 200):
+        cid += 1
+        cases.append(gen_plug_any_case(ctx.rng, cid))
     if hook:
         # corpus first: the recorded witness of the lost update
         cdir = os.path.join(hv.V, "corpus")
@@ -441,7 +509,7 @@ def mp(case):
 
 
 def rate_model_line(case, obs):
-    parts = ["rate", str(case["interval"]), mp(case), str(case["timeout_ns"])]
+    parts = model_head(case) + [mp(case), str(case["timeout_ns"])]
     for call, co in zip(case["calls"], obs["calls"]):
         parts += [str(co["last"]), str(co["b"]), str(call["tokens"]), str(co["last"]), str(co["a"]), str(call["tokens"])]
     return " ".join(parts)
@@ -455,11 +523,13 @@ def rate_compare(case, obs, mout, st):
     if mout.startswith("MODEL-ERROR"):
         return "model runner failed: " + mout
     toks = mout.split(" ") if mout else []
-    tol = 0 if case["pow2"] else 1
+    tol = 0 if case["pow2"] else (2 if case.get("nondiv") else 1)
     if not obs["next_ok"]:
         return "cannot read RateLimiter.next"
-    if abs(obs["interval"] - case["interval"]) > 0:
-        return "interval field %r, expected %d" % (obs["interval"], case["interval"])
+    want = SEC / case["pps"]            # interval * rate = one second; float64 division is exact to 1e-16
+    if abs(obs["interval"] - want) > 1e-12 * want:
+        return "interval field %r ns per permit, but 1e9 / %d = %r (interval * rate must be one second)" % (
+            obs["interval"], case["pps"], want)
     if not (obs["t0b"] <= obs["next0"] <= obs["t0a"]):
         return "initial next %d outside the window of the constructor [%d,%d]" % (obs["next0"], obs["t0b"], obs["t0a"])
     prev = obs["next0"]
@@ -487,9 +557,23 @@ def rate_compare(case, obs, mout, st):
     return None
 
 
+def rate_underdebit(case, obs):
+    I = ival(case)
+    # every call of t tokens pushes the next free time by t permits' worth, at 1e9/rate ns per permit
+    # (int64 truncation: less than 1 ns; float64 rounding: 1e-9 relative is generous)
+    for k, (call, co) in enumerate(zip(case["calls"], obs["calls"])):
+        owed = call["tokens"] * I
+        if co["next"] - co["last"] < owed * (1 - Fraction(1, 10**9)) - 2:
+            got = co["next"] - co["last"]
+            return ("rate:under-debit", "call %d of %d tokens at %d permits/s pushed the next free time by %d ns; %d tokens are worth %s ns "
+                    "(interval %s ns): sustained, %.4g times the configured rate is let through"
+                    % (k, call["tokens"], case["pps"], got, call["tokens"], float(owed), float(I), float(owed) / max(got, 1)))
+    return None
+
+
 def rate_oracle(case, obs):
     """Property text on the observed calls.  -> (key, text) or None."""
-    I, M, T = case["interval"], case["burst"], case["timeout_ns"]
+    I, M, T = ival(case), case["burst"], case["timeout_ns"]
     granted = []
     for k, (call, co) in enumerate(zip(case["calls"], obs["calls"])):
         if co["err"] == "timeout":
@@ -504,7 +588,7 @@ def rate_oracle(case, obs):
         else:
             return ("rate:error", "call %d: unexpected error %s" % (k, co.get("msg")))
     if case["cancelled"]:
-        return None        # the caller's own context ended the waits: admission times say nothing
+        return rate_underdebit(case, obs)   # the caller's own context ended the waits: admission times say nothing
     for (k, b, a, t, last) in granted:
         if a < last:
             return ("rate:early-return", "call %d was let through %d ns before the bucket was free again" % (k, last - a))
@@ -517,15 +601,17 @@ def rate_oracle(case, obs):
         for y in range(x + 1, len(granted)):
             mid = pre[y] - pre[x + 1]
             if M >= 0:
-                if mid * I > (granted[y][2] - granted[x][1]) + M * I:
+                # most elapsed time the two admissions can be apart (clock window), float rounding 1e-9, and less
+                # than one nanosecond of truncation per call
+                if mid * I > ((granted[y][2] - granted[x][1]) + M * I) * (1 + Fraction(1, 10**9)) + (y - x):
                     return ("rate:over-admission", "%d tokens let through strictly between calls %d and %d, which are at most %d ns apart: "
-                            "more than burst %d + elapsed/interval (interval %d ns)" % (mid, granted[x][0], granted[y][0],
-                                                                                     granted[y][2] - granted[x][1], M, I))
+                            "more than burst %d + elapsed/interval (interval %s ns)" % (mid, granted[x][0], granted[y][0],
+                                                                                     granted[y][2] - granted[x][1], M, float(I)))
     for y in range(len(granted)):
-        if pre[y] * I > granted[y][2] - obs["t0b"]:
-            return ("rate:over-admission", "%d tokens let through before call %d, only %d ns after the limiter was created (interval %d ns)"
-                    % (pre[y], granted[y][0], granted[y][2] - obs["t0b"], I))
-    return None
+        if pre[y] * I > (granted[y][2] - obs["t0b"]) * (1 + Fraction(1, 10**9)) + y:
+            return ("rate:over-admission", "%d tokens let through before call %d, only %d ns after the limiter was created (interval %s ns)"
+                    % (pre[y], granted[y][0], granted[y][2] - obs["t0b"], float(I)))
+    return rate_underdebit(case, obs)
 
 
 # ---------------------------------------------------------------------------- plug: model side
@@ -537,7 +623,7 @@ def plug_reqlen(obs):
 
 def plug_lines(case, obs, first=None):
     """first=None: the InvokeHandler's Acquire(1).  Otherwise: the IOHandler's Acquire(len) from the model's state."""
-    parts = ["rate", str(case["interval"]), mp(case), str(case["timeout_ns"])]
+    parts = model_head(case) + [mp(case), str(case["timeout_ns"])]
     L = plug_reqlen(obs)
     for k, co in enumerate(obs["calls"]):
         if first is None:
@@ -549,8 +635,11 @@ def plug_lines(case, obs, first=None):
 
 
 def plug_compare(case, obs, m1, m2, st):
-    tol = 0 if case["pow2"] else 2
+    tol = 0 if case["pow2"] else (4 if case.get("nondiv") else 2)
     L = plug_reqlen(obs)
+    want = SEC / case["pps"]
+    if abs(obs["interval"] - want) > 1e-12 * want:
+        return "interval field %r ns per permit, but 1e9 / %d = %r" % (obs["interval"], case["pps"], want)
     prev = obs["next0"]
     for k, co in enumerate(obs["calls"]):
         if co["last"] != prev:
@@ -580,7 +669,15 @@ def plug_compare(case, obs, m1, m2, st):
 
 
 def plug_oracle(case, obs):
+    I = ival(case)
     for k, co in enumerate(obs["calls"]):
+        if co["err"] == "nil" and co["reach"] == 1:
+            owed = (1 + co["len"]) * I        # InvokeHandler charges 1, IOHandler len(request)
+            got = co["next"] - co["last"]
+            if got < owed * (1 - Fraction(1, 10**9)) - 4:
+                return ("rate:under-debit", "invoke %d (request of %d bytes) at %d permits/s pushed the next free time by %d ns; "
+                        "1 + %d tokens are worth %s ns (interval %s ns): sustained, %.4g times the configured rate is let through"
+                        % (k, co["len"], case["pps"], got, co["len"], float(owed), float(I), float(owed) / max(got, 1)))
         if co["err"] == "nil" and co["reach"] != 1:
             return ("rate:plug-next", "invoke %d returned no error but the downstream handler ran %d times" % (k, co["reach"]))
         if co["err"] == "timeout":
@@ -590,7 +687,7 @@ def plug_oracle(case, obs):
                 return ("rate:spurious-timeout", "invoke %d rejected with ErrTimeout but no timeout is configured" % k)
             L = plug_reqlen(obs) or 0
             # the second Acquire sees next = last + 1*interval at most (rounded up by one)
-            need_max = co["last"] + case["interval"] + 1 - co["b"]
+            need_max = co["last"] + int(ival(case)) + 2 - co["b"]
             if need_max <= case["timeout_ns"]:
                 return ("rate:spurious-timeout", "invoke %d rejected although the wait needed (at most %d ns) does not exceed the timeout %d"
                         % (k, need_max, case["timeout_ns"]))
@@ -767,7 +864,9 @@ def evaluate(ctx, cases, byid, hook):
         ctx.bump("rate_calls", None, len(o["calls"]))
         ctx.bump("rate_waits", None, waits)
         ctx.bump("rate_rejections", None, rej)
-        ctx.bump("rate_family", "pow2-exact" if c["pow2"] else "decimal-rounded")
+        ctx.bump("rate_family", "pow2-exact" if c["pow2"] else ("non-dividing-rational" if c.get("nondiv") else "decimal-rounded"))
+        if c.get("nondiv"):
+            ctx.bump("rate_nondividing_pps", str(c["pps"]))
         ctx.bump("rate_mode", "cancelled-context" if c["cancelled"] else "real-waits")
         d = rate_compare(c, o, mout, st)
         if d:
@@ -860,11 +959,19 @@ def run(ctx):
              "request had to wait; family nocancel = limiter without timeout, full, callers queued with contexts already cancelled / "
              "cancelled while queued / expiring while queued. free: 100..500 calls of Acquire/Release or Invoke whose time-out (1ns) or cancellation (before, during, "
              "or together with a release to a blocked caller) races with a send that can succeed; permit count checked after every call; "
-             "non-trivial = both outcomes of the race occurred. rate/plug: 6..24 sequential calls, power-of-two and decimal intervals, maxPermits {Inf,0..}, timeouts, idle "
+             "non-trivial = both outcomes of the race occurred. rate/plug: 6..24 sequential calls, power-of-two and decimal intervals and rates that do not divide 1e9 "
+             "(3/s .. 999,000,000/s, rational model) with multi-token calls up to millions of tokens and requests up to 40 kB through the IOHandler, maxPermits {Inf,0..}, timeouts, idle "
              "gaps, real waits or cancelled context; non-trivial = at least one call waited or was rejected. conc (with hook): forced "
              "interleaved / atomic load-store schedules. distinct by full case text")
     ctx.note("exhaustive", False)
     ctx.note("disagreeing_cases", len(disagreements))
+    def severity(hit):      # among the failing cases of one kind, report the plainest one
+        t = hit[3]
+        try:
+            return -float(t.split("sustained, ")[1].split(" times")[0])
+        except Exception:
+            return 0.0
+    oracle_hits.sort(key=severity)       # stable: the order of the others is kept
     seen_keys = set()
     for c, o, key, text in oracle_hits:
         if key in seen_keys:
